@@ -120,7 +120,11 @@ def signed_pad_rows(K, S, A, tname):
     for name, vf in (("negative", lambda W: -7), ("zero", lambda W: 0), ("positive", lambda W: 9), ("min", lambda W: arith.rng(W, A)[0]),
                      ("max", lambda W: arith.rng(W, A)[1]), ("neg_one", lambda W: -1),
                      ("digit_top", lambda W: min(1 << (dbits - 1), arith.rng(W, A)[1])), ("digit_max", lambda W: min((1 << dbits) - 1, arith.rng(W, A)[1])),
-                     ("neg_digit_top", lambda W: max(-(1 << (dbits - 1)) - 1, arith.rng(W, A)[0]))):
+                     ("neg_digit_top", lambda W: max(-(1 << (dbits - 1)) - 1, arith.rng(W, A)[0])),
+                     # machine-word boundaries (a "fits in a primitive" shortcut must hold the same value)
+                     ("b63", lambda W: min(1 << 63, arith.rng(W, A)[1])), ("b64m1", lambda W: min((1 << 64) - 1, arith.rng(W, A)[1])),
+                     ("b127", lambda W: min(1 << 127, arith.rng(W, A)[1])), ("b128m1", lambda W: min((1 << 128) - 1, arith.rng(W, A)[1])),
+                     ("nb63m1", lambda W: max(-(1 << 63) - 1, arith.rng(W, A)[0])), ("nb127m1", lambda W: max(-(1 << 127) - 1, arith.rng(W, A)[0]))):
         key = "%s:G:%s:%s:%s" % (PROP, K.config, fid, name)
         status, detail = core.PROVED, ""
         for n in core.WORLDS:
